@@ -43,6 +43,8 @@ func c12Opts(set, dir string) []func(*Config) {
 		o = []func(*Config){Dir(filepath.Join(dir, "sub", "deep"))}
 	case "update":
 		o = append(o, Update(true))
+	case "updatefalse":
+		o = append(o, Update(false))
 	case "json":
 		o = append(o, JSON(JSONConfig{Indent: "   ", Width: 10, SortKeys: false}))
 	case "all":
@@ -213,6 +215,18 @@ func c12Gen(c *vfCtx, emit func(c12Case)) {
 			emit(c12Case{Kind: "seq", OptSet: os, Seq: s})
 		}
 	}
+	// two Configs built one after the other in one process, differing in their options: the second behaves as if it were alone
+	pairSets := []string{"none", "update", "updatefalse", "ext", "json", "filename"}
+	for _, x := range pairSets {
+		for _, y := range pairSets {
+			if x == y {
+				continue
+			}
+			for _, a := range c12APIs {
+				emit(c12Case{Kind: "pair", OptSet: x, Seq: []string{y, a}})
+			}
+		}
+	}
 	// concurrent use of ONE Config: every pair (and, thorough, triple) of entry points, every schedule
 	bound := 2
 	for _, os := range []string{"none", "filename", "all"} {
@@ -230,9 +244,48 @@ func c12Gen(c *vfCtx, emit func(c12Case)) {
 	}
 }
 
+// c12Pair: WithConfig(X) then WithConfig(Y) in the same directory; one call through Y, compared with Y built alone elsewhere.
+func c12Pair(c *vfCtx, cs c12Case) {
+	c.addSet("nontrivial", vfHashJSON(cs))
+	x, y, api := cs.OptSet, cs.Seq[0], cs.Seq[1]
+	// directories no earlier case of this process has built a Config for (a process-wide memo keyed by the options would otherwise
+	// already hold Configs for them, in the pair run and in the reference run alike)
+	tag := fmt.Sprintf("%x", vfHashJSON(cs))
+	dir := filepath.Join(c.newWorld(), "pair-"+tag)
+	dir2 := filepath.Join(c.scratch, "w2", "alone-"+tag)
+	os.RemoveAll(filepath.Join(c.scratch, "w2"))
+	os.MkdirAll(dir, 0o755)
+	os.MkdirAll(dir2, 0o755)
+	run := func(d string, first string) (string, []string) {
+		vfResetState(false, "", true)
+		if first != "" {
+			WithConfig(c12Opts(first, d)...)
+		}
+		cfg := WithConfig(c12Opts(y, d)...)
+		t := &vfT{name: "TestA"}
+		before := vfSnapDir(d)
+		mk := t.mark()
+		c12Do(cfg, api, t, 0)
+		t.end()
+		c.count("transitions", 1)
+		return t.outcome(mk), c12Created(before, vfSnapDir(d))
+	}
+	aloneO, aloneC := run(dir2, "")
+	pairO, pairC := run(dir, x)
+	c.outcome("pair:" + pairO)
+	c.addSet("states", vfHash(x, y, api, pairO, fmt.Sprint(pairC)))
+	if pairO != aloneO || fmt.Sprint(pairC) != fmt.Sprint(aloneC) {
+		c.violation("", fmt.Sprintf("a Config with options %q built after one with options %q: %s signalled %s and wrote %v; built alone it signals %s and writes %v", y, x, api, pairO, pairC, aloneO, aloneC), cs)
+	}
+}
+
 func c12Run(c *vfCtx, cs c12Case) {
 	if cs.Kind == "conc" {
 		c12Conc(c, cs)
+		return
+	}
+	if cs.Kind == "pair" {
+		c12Pair(c, cs)
 		return
 	}
 	c.addSet("nontrivial", vfHashJSON(cs))
@@ -248,7 +301,7 @@ func c12Run(c *vfCtx, cs c12Case) {
 	cfg2 := WithConfig(c12Opts(cs.OptSet, dir2)...)
 	d0, s0, def0 := vfDumpCfg(cfg), vfDumpCfg(sib), vfDumpCfg(WithConfig())
 	t := &vfT{name: "TestA"}
-	var lastCreated []string
+	var lastCreated, firstOutcomes []string
 	lastOutcome := ""
 	for i, api := range cs.Seq {
 		before := vfSnapDir(dir)
@@ -256,6 +309,7 @@ func c12Run(c *vfCtx, cs c12Case) {
 		c12Do(cfg, api, t, i)
 		c.count("transitions", 1)
 		lastOutcome = t.outcome(mk)
+		firstOutcomes = append(firstOutcomes, lastOutcome)
 		lastCreated = c12Created(before, vfSnapDir(dir))
 		// representation changes of the Config itself are only counted: a benign
 		// internal cache keeps the property true; the verdict is behavioural (below)
@@ -269,6 +323,29 @@ func c12Run(c *vfCtx, cs c12Case) {
 	}
 	t.end()
 	c.addSet("states", vfHash(cs.OptSet, fmt.Sprint(lastCreated), fmt.Sprint(vfHashDir(vfSnapDir(dir)))))
+	// a second execution of the same test through the same Config (what -count 2 does): every call finds the slot it wrote
+	{
+		tb := &vfT{name: "TestA"}
+		beforeB := vfSnapDir(dir)
+		for i, api := range cs.Seq {
+			mk := tb.mark()
+			c12Do(cfg, api, tb, i)
+			c.count("transitions", 1)
+			want := "pass"
+			if firstOutcomes[i] == "failed" {
+				want = "failed" // rejected, or creation not allowed by the options: the same again
+			}
+			if got := tb.outcome(mk); got != want {
+				c.violation("", fmt.Sprintf("second execution of %v through the same Config: call %d (%s) signalled %s, expected %s: %v", cs.Seq, i+1, api, got, want, tb.errs), cs)
+				return
+			}
+		}
+		tb.end()
+		if d := vfDirDiff(beforeB, vfSnapDir(dir), false); d != "" {
+			c.violation("", fmt.Sprintf("second execution of %v through the same Config changed the directory: %s", cs.Seq, d), cs)
+			return
+		}
+	}
 	// differential: the last call alone, through the independent Config, into an empty directory
 	last := cs.Seq[len(cs.Seq)-1]
 	vfResetState(false, "", true)
